@@ -10,6 +10,8 @@
 // given authorizer and builds the expected response from scratch.
 // Part 1b (c09_store_test.go): aliasing — filtering a response assembled from state-store objects must
 // not change what the store returns to the next reader.
+// Part 4 (c09_stream_test.go): the streaming read path — one published event batch shared by several
+// subscribers with different authorizers, through the real EventPublisher / Subscription.Next.
 // Part 2 (expiry monitor, c09_expiry_test.go): a real ACLResolver over a fake backend.
 // Part 3 (c09_server_test.go): the same two clauses end-to-end on a real in-process server.
 package consul
@@ -566,7 +568,7 @@ func zvStripFlag(s string) string {
 
 func TestZZVerifC09(t *testing.T) {
 	run := core.NewRun("C09", "exploration",
-		"filter: for each of the filterable response types (every case of aclfilter.Filter's type switch, FilterDirEnt, FilterTxnResults) ALL arrangements of up to 5 elements (4 for the multi-list types) over a per-type alphabet of readable/unreadable/peer/duplicate elements are enumerated under a fixed table authorizer (x all acl:read/acl:write combinations for ACL-dependent types), plus nested node/service/check structures; every arrangement is repeated under seed-derived random table authorizers (Allow/Deny/Default per (kind,name,peer)) and real compiled policy authorizers; the real filter output is compared (content, order, flag) with a from-scratch reference built from the documented read predicate; non-trivial = something removed or redacted and something kept, distinct by (type, arrangement, authorizer). expiry: real ACLResolver x {expired 1h, expired 1s, valid 1h, no expiry, expiring in real time while cached} x {policy, role, service identity} x {local, remote token} x {local, remote policies} x 4 down policies x 2 default policies x {cache TTL 0, 30s} x {RPC ok, token RPC failing, all RPC failing} x {cold, warm, stored token swapped for an expired copy}. aliasing: 32 state-store queries x 40 (thorough 400) authorizers: query, filter, re-query must return the unfiltered data again. server tier: a real single-node server; 22 read endpoints x 17 (thorough 121) tokens created through the ACL endpoints from random rule text (plus the anonymous token): the reply must equal the management reply reduced by the documented predicate under an independently compiled authorizer, flag exact and masked for anonymous; tokens written through raft with a past or imminent ExpirationTime must be refused by every endpoint")
+		"filter: for each of the filterable response types (every case of aclfilter.Filter's type switch, FilterDirEnt, FilterTxnResults) ALL arrangements of up to 5 elements (4 for the multi-list types) over a per-type alphabet of readable/unreadable/peer/duplicate elements are enumerated under a fixed table authorizer (x all acl:read/acl:write combinations for ACL-dependent types), plus nested node/service/check structures; every arrangement is repeated under seed-derived random table authorizers (Allow/Deny/Default per (kind,name,peer)) and real compiled policy authorizers; the real filter output is compared (content, order, flag) with a from-scratch reference built from the documented read predicate; non-trivial = something removed or redacted and something kept, distinct by (type, arrangement, authorizer). expiry: real ACLResolver x {expired 1h, expired 1s, valid 1h, no expiry, expiring in real time while cached} x {policy, role, service identity} x {local, remote token} x {local, remote policies} x 4 down policies x 2 default policies x {cache TTL 0, 30s} x {RPC ok, token RPC failing, all RPC failing} x {cold, warm, stored token swapped for an expired copy}. aliasing: 32 state-store queries x 40 (thorough 400) authorizers: query, filter, re-query must return the unfiltered data again. stream: through a real stream.EventPublisher, every batch of 1..5 events (4 for two of the six kinds in quick) of 6 kinds (service health per subject / wildcard incl. a peer, service-resolver, service-defaults, service-intentions config entries, service-list updates) is published once and read through Subscription.Next by 2-3 subscribers (all / none / mixed table in all 6 orders, 3 random tables, policy+random), each filtering with HasReadPermission as the subscribe service does; the serialized events each subscriber gets must equal the reference selection in order; an observer subscription checks after every subscriber that the shared batch and its payload objects are unchanged. server tier: a real single-node server; 22 read endpoints x 17 (thorough 121) tokens created through the ACL endpoints from random rule text (plus the anonymous token): the reply must equal the management reply reduced by the documented predicate under an independently compiled authorizer, flag exact and masked for anonymous; tokens written through raft with a past or imminent ExpirationTime must be refused by every endpoint")
 	run.Assume("CE build: namespaces/partitions play no role; the peer name of the element's own authorization context is the only context",
 		"within one catalog node, the node, its services and its checks carry the same peer name (as the state store produces them)",
 		"an authorizer decision other than Allow (Deny or Default) means not readable",
@@ -663,6 +665,21 @@ func TestZZVerifC09(t *testing.T) {
 	run.Floor("aliasing_cases", 1000)
 	run.Floor("aliasing_cases_filtered", 500)
 	run.FloorDistinct("aliasing-queries", 30)
+	if strng := rng.Fork(666); part("stream") {
+		zvStream(run, strng)
+	}
+	run.Floor("stream_cases", 30000)
+	run.Floor("stream_subscriber_servings", 80000)
+	run.Floor("stream_multi_event_batches", 20000)
+	run.Floor("stream_mixed", 10000)
+	run.Floor("stream_mixed_after_other_subscriber", 5000)
+	run.Floor("stream_all_removed", 10000)
+	run.Floor("stream_none_removed", 10000)
+	run.Floor("stream_first_removed", 1000)
+	run.Floor("stream_last_removed", 1000)
+	run.Floor("stream_adjacent_removals", 1000)
+	run.FloorDistinct("stream-kinds", 6)
+	run.FloorDistinct("stream-subscriber-orders", 8)
 	erng, srng := rng.Fork(777), rng.Fork(888)
 	expiry := func() {
 		if part("expiry") {
